@@ -122,7 +122,10 @@ class DashTiming:
                 self.publishTime -
                 datetime.timedelta(seconds=self.DEFAULT_TIMESHIFT_BUFFER_DEPTH))
         else:
-            self.availabilityStartTime = options.availabilityStartTime
+            # publishTime is always on a whole second, so a start with
+            # fractional seconds would put publishTime before it
+            self.availabilityStartTime = options.availabilityStartTime.replace(
+                microsecond=0)
         self.elapsedTime = now - self.availabilityStartTime
         logging.debug(
             'calculate_live_params elapsed=%s (%f) now=%s availabilityStartTime=%s timescale=%d',
